@@ -17,3 +17,6 @@ func VerifFuncSizeCacheLen() int {
 	defer funcSizeReadLock.Unlock()
 	return len(funcSizeCache)
 }
+
+// VerifFuncPrologue returns the prologue fingerprint the extent scan compares with.
+func VerifFuncPrologue() []byte { return append([]byte{}, funcPrologue...) }
